@@ -1,5 +1,6 @@
 import XmppVerif.Drv.Core
 import XmppVerif.Spec.C02
+import XmppVerif.Drv.C02Bytes
 /-
 Driver plug-in for C02.
   item <s-expr> [style]   the next top-level item (token view; the style only fixes the bytes on the Go side)   => -
@@ -77,8 +78,10 @@ def parseSeq (s : String) : Option (List Obs) := (s.splitOn ";").mapM parseObs
 
 structure St where
   items : List Item := []   -- reversed
+  bytes : Bool := false     -- variant `bytes`: the byte-level tokenizer model (Drv/C02Bytes.lean)
 
 def step (s : St) (fields : List String) (impl : String) : St × Reply :=
+  if s.bytes then (s, XmppVerif.Drv.C02Bytes.stepBytes fields impl) else
   match fields with
   | "item" :: sx :: _ =>
     match parseItem sx with
@@ -97,5 +100,5 @@ def step (s : St) (fields : List String) (impl : String) : St × Reply :=
     (s, ⟨if ok then impl else "done", ok, true, ok, "-"⟩)
   | _ => (s, .bad)
 
-def handler : Handler := ⟨St, fun _ => {}, step⟩
+def handler : Handler := ⟨St, fun v => { bytes := v.head? == some "bytes" }, step⟩
 end XmppVerif.Drv.C02
